@@ -10,6 +10,7 @@ import (
 	"go/types"
 	"math"
 	"math/bits"
+	"sort"
 	"strings"
 
 	"github.com/cespare/xxhash/v2"
@@ -191,6 +192,12 @@ func init() {
 			}
 			return true
 		})
+		return nil
+	}
+	harnessAPI["verifTerminates"] = func(fr *frame, args []value) value {
+		// from here on, exceeding the given instruction budget is a termination violation
+		fr.m.termLabel = strOf(args[1])
+		fr.m.budget = fr.m.steps + fr.cint(args[0])
 		return nil
 	}
 	harnessAPI["verifSetBudget"] = func(fr *frame, args []value) value {
@@ -405,6 +412,31 @@ func init() {
 			return nil
 		}}
 	})
+	sortSlice := func(stable bool) intrinsicFn {
+		return func(fr *frame, args []value) value {
+			s, _ := args[0].(iface).v.([]value)
+			less := args[1]
+			d := &interpSorter{fr: fr, s: s, less: less}
+			if stable {
+				sort.Stable(d)
+			} else {
+				sort.Sort(d)
+			}
+			return nil
+		}
+	}
+	reg("sort.Slice", sortSlice(false))
+	reg("sort.SliceStable", sortSlice(true))
+	reg("sort.SliceIsSorted", func(fr *frame, args []value) value {
+		s, _ := args[0].(iface).v.([]value)
+		d := &interpSorter{fr: fr, s: s, less: args[1]}
+		for i := len(s) - 1; i > 0; i-- {
+			if d.Less(i, i-1) {
+				return false
+			}
+		}
+		return true
+	})
 	reg("errors.Is", func(fr *frame, args []value) value { return fr.m.errorsIs(fr, args[0].(iface), args[1].(iface)) })
 	reg("errors.As", func(fr *frame, args []value) value { return fr.m.errorsAs(fr, args[0].(iface), args[1].(iface)) })
 
@@ -413,6 +445,26 @@ func init() {
 }
 
 type digestKey struct{ p *value }
+
+// interpSorter sorts an interpreted slice in place with an interpreted less function.
+type interpSorter struct {
+	fr   *frame
+	s    []value
+	less value
+}
+
+func (d *interpSorter) Len() int { return len(d.s) }
+func (d *interpSorter) Swap(i, j int) { d.s[i], d.s[j] = d.s[j], d.s[i] }
+func (d *interpSorter) Less(i, j int) bool {
+	r := d.fr.m.call(d.fr, token.NoPos, d.less, []value{i, j}, nil)
+	switch r := r.(type) {
+	case bool:
+		return r
+	case sym:
+		return d.fr.branch(r.t)
+	}
+	panic(engineError{"sort: less returned non-bool"})
+}
 
 func strOf(v value) string {
 	switch v := v.(type) {
@@ -546,6 +598,9 @@ func (m *Machine) violation(fr *frame, kind, label, detail string) {
 	v := Violation{Label: label, Kind: kind, Detail: detail, Model: cloneModel(m.model), Nondets: m.evalNondets(), Trail: append([]Decision(nil), m.trail[:m.dpos]...), Sched: append([]int(nil), m.sched...)}
 	if fr != nil {
 		v.Detail += " @ " + fr.stack()
+	}
+	for _, o := range m.obsLog {
+		v.Obs = append(v.Obs, fmtObs(m, o))
 	}
 	m.res.Violations = append(m.res.Violations, v)
 }
